@@ -279,6 +279,14 @@ type WorkerConfig struct {
 	External func(c interface{}, v *Violation, traceHash string) (bool, string)
 }
 
+// currentCasePath names the file that holds the case a worker is running.
+func currentCasePath(cfg WorkerConfig, prop string) string {
+	if cfg.ReplayDir == "" {
+		return ""
+	}
+	return fmt.Sprintf("%s/%s-%d-w%d.current.json", cfg.ReplayDir, prop, cfg.Seed, cfg.Worker)
+}
+
 func RunWorker(p Prop, cfg WorkerConfig) (*Partial, error) {
 	start := time.Now()
 	part := &Partial{Property: p.ID(), Seed: cfg.Seed, Worker: cfg.Worker, Race: cfg.Race, Counters: map[string]int64{}}
@@ -288,6 +296,15 @@ func RunWorker(p Prop, cfg WorkerConfig) (*Partial, error) {
 	for i := 0; i < cfg.MaxCases && time.Since(start) < cfg.Budget; i++ {
 		caseSeed := cfg.Seed*1000003 + int64(cfg.Worker)*100003 + int64(i)
 		c := p.Gen(NewRand(caseSeed), cfg.Tier)
+		// the case about to run, for the orchestrator: if the code under test
+		// kills this process (a runtime "fatal error", e.g. an unlock of an
+		// unlocked mutex, cannot be recovered), this file is the replay of the crash
+		if cur := currentCasePath(cfg, p.ID()); cur != "" {
+			if raw, err := json.Marshal(c); err == nil {
+				b, _ := json.Marshal(Replay{Property: p.ID(), Seed: cfg.Seed, CaseSeed: caseSeed, Violation: Violation{Class: "crash", Key: "*"}, TraceHash: "*", Case: raw})
+				os.WriteFile(cur, b, 0o644)
+			}
+		}
 		o := p.Run(c, nil)
 		if cfg.PostRun != nil {
 			cfg.PostRun(c, o)
@@ -380,6 +397,9 @@ func RunWorker(p Prop, cfg WorkerConfig) (*Partial, error) {
 		for k, n := range cfg.Extra() {
 			part.Counters[k] += n
 		}
+	}
+	if cur := currentCasePath(cfg, p.ID()); cur != "" {
+		os.Remove(cur)
 	}
 	part.WallS = time.Since(start).Seconds()
 	if cfg.Out != "" {
